@@ -104,7 +104,28 @@ pub enum VaultError {
     PermissionDenied,
     VaultAlreadyInit,
     Core(CoreError),
+    /// `#[from] sos_core::AuthenticationError`
+    Authentication(AuthenticationError),
+    /// `#[from] std::array::TryFromSliceError`
+    TryFromSlice,
     Other,
+}
+impl From<AuthenticationError> for VaultError {
+    /// thiserror `#[from]`: wraps the value
+    fn from(e: AuthenticationError) -> (r: VaultError)
+        ensures r == VaultError::Authentication(e),
+    { VaultError::Authentication(e) }
+}
+impl vstd::std_specs::convert::FromSpecImpl<AuthenticationError> for VaultError {
+    open spec fn obeys_from_spec() -> bool { true }
+    open spec fn from_spec(e: AuthenticationError) -> VaultError { VaultError::Authentication(e) }
+}
+impl From<TryFromSliceError> for VaultError {
+    fn from(e: TryFromSliceError) -> (r: VaultError) ensures r == VaultError::TryFromSlice, { VaultError::TryFromSlice }
+}
+impl vstd::std_specs::convert::FromSpecImpl<TryFromSliceError> for VaultError {
+    open spec fn obeys_from_spec() -> bool { true }
+    open spec fn from_spec(e: TryFromSliceError) -> VaultError { VaultError::TryFromSlice }
 }
 impl From<CoreError> for VaultError {
     /// thiserror `#[from]`: wraps the value
